@@ -135,6 +135,18 @@ def programs(rng=None, tier="quick"):
     add(Prog("while_vmap", "while", while_vmap, [((4,), f32)], ins, [bwhile_x(0, 1)],
              steer=lambda a: "lane-trips=" + ",".join(str(max(0, math.ceil((5.0 - float(v)) / 1.5))) for v in a[0])))
 
+    def while_vmap_reentrant(x):   # NON-monotone predicate: a finished lane's condition becomes true again while others still run
+        return jax.vmap(lambda v: lax.while_loop(lambda a: jnp.logical_and(a != 3.0, a < 10.0), lambda a: a + 2.0, v))(x)
+
+    def rtrips(v):
+        n, v = 0, float(v)
+        while v != 3.0 and v < 10.0:
+            v, n = v + 2.0, n + 1
+        return n
+    ins = [(_a([1, 0, 2]),), (_a([3, 9, 11]),), (_a([-1, -2, 3]),), (_a([1, 1, 1]),), (_a([5, 7, 3]),)]
+    add(Prog("while_vmap_reentrant", "while", while_vmap_reentrant, [((3,), f32)], ins, [bwhile_x(0, 1)],
+             steer=lambda a: "lane-trips=" + ",".join(str(rtrips(v)) for v in a[0])))
+
     # ---- scan -----------------------------------------------------------------------------------
     for n in (4, 1, 0):
         def scan0(x, k, n=n):       # no scanned input, static length, captured constant
